@@ -177,7 +177,7 @@ class Faults(object):
 def budget(tier):
     if tier == 'quick':
         return {'cases': 4800, 'wall_cap_s': 240}
-    return {'cases': 48000, 'wall_cap_s': 1500}
+    return {'cases': 100000, 'wall_cap_s': 1500}
 
 
 def gen_case(rng, tier, g):
